@@ -80,7 +80,7 @@ def signature_index(sources):
 
     for rel, text in sources.items():
         try:
-            tree = ast.parse(text)
+            tree = text if isinstance(text, ast.AST) else ast.parse(text)
         except SyntaxError:
             continue
         methods = set()
@@ -331,9 +331,10 @@ def _inline_single_use(tree):
             done = False
             for node, f in blocks:
                 seq = getattr(node, f)
-                for i in range(len(seq)):
+                # from the end of the block, so that a deletion does not move the statements still to be looked at
+                for i in range(len(seq) - 2, -1, -1):
                     c = candidate(seq, i, params)
-                    if c and cnt.get(c[0], 0) == 2 * npairs[c[0]]:
+                    if c and cnt.get(c[0], 0) == 2 * npairs.get(c[0], 0):
                         t, load = c
                         value = seq[i].value
 
@@ -352,9 +353,6 @@ def _inline_single_use(tree):
                             seq[i + 1] = Sub().visit(nxt)
                         del seq[i]
                         done = True
-                        break
-                if done:
-                    break
             if not done:
                 break
     return tree
@@ -452,11 +450,11 @@ def normalise(tree, sigs=None):
 
 
 class Module:
-    def __init__(self, name, relpath, src):
+    def __init__(self, name, relpath, src, tree=None):
         self.name = name
         self.path = relpath
         self.src = src
-        self.tree = normalise(ast.parse(src, filename=relpath))
+        self.tree = normalise(tree if tree is not None else ast.parse(src, filename=relpath))
         self.is_pkg = relpath.endswith("__init__.py")
         self.imports = {}  # alias -> qualified dotted name
         self.star_imports = []  # modules imported with *
@@ -587,7 +585,16 @@ class SrcModel:
                     parts = parts[:-1]
                 self._paths.setdefault(".".join(parts), rel)
         global SIGS
-        SIGS = self.sigs = signature_index({rel: self.read(rel) for name, rel in self._paths.items() if name not in LAZY_MODULES})
+        # every file is parsed once: the signature index is computed from the same trees the modules are then built from
+        self._parsed = {}
+        for name, rel in self._paths.items():
+            if name in LAZY_MODULES:
+                continue
+            try:
+                self._parsed[rel] = ast.parse(self.read(rel), filename=rel)
+            except SyntaxError as e:
+                raise AnalysisError(f"cannot parse {rel}: {e}")
+        SIGS = self.sigs = signature_index(self._parsed)
         for name in sorted(self._paths):
             if name in LAZY_MODULES:
                 continue
@@ -628,7 +635,7 @@ class SrcModel:
         src = self.read(rel)
         self.digest.update(rel.encode() + b"\0" + src.encode() + b"\0")
         try:
-            self.modules[name] = Module(name, rel, src)
+            self.modules[name] = Module(name, rel, src, tree=getattr(self, "_parsed", {}).pop(rel, None))
         except SyntaxError as e:
             raise AnalysisError(f"cannot parse {rel}: {e}")
         return self.modules[name]
